@@ -10,6 +10,8 @@ pub mod c01;
 pub mod c02;
 pub mod c03;
 pub mod c04;
+pub mod c05;
+pub mod c09;
 pub mod c06;
 pub mod codes;
 pub mod c07;
@@ -22,6 +24,8 @@ pub fn run(prop: &str, ctx: &Ctx) -> Option<Report> {
         "C02" => c02::run(ctx),
         "C03" => c03::run(ctx),
         "C04" => c04::run(ctx),
+        "C05" => c05::run(ctx),
+        "C09" => c09::run(ctx),
         "C06" => c06::run(ctx),
         "C07" => c07::run(ctx),
         _ => return None,
@@ -35,6 +39,8 @@ pub fn replay(prop: &str, case: &str, rep: &mut Report) -> bool {
         "C02" => c02::replay(case, rep),
         "C03" => c03::replay(case, rep),
         "C04" => c04::replay(case, rep),
+        "C05" => c05::replay(case, rep),
+        "C09" => c09::replay(case, rep),
         "C06" => c06::replay(case, rep),
         "C07" => c07::replay(case, rep),
         _ => return false,
